@@ -204,6 +204,23 @@ pub fn last_panic_anywhere() -> String {
     LAST_PANIC.lock().map(|g| g.clone()).unwrap_or_default()
 }
 
+/// Run a call into the crate that the current property does not judge; an ordinary panic (a
+/// message payload) is swallowed and forgotten, anything else — such as the forced unwind with
+/// which a coroutine scheduler tears down an abandoned task — is passed on untouched.
+pub fn swallow_crate_panic<T>(f: impl FnOnce() -> T) -> Option<T> {
+    match catch_unwind(AssertUnwindSafe(f)) {
+        Ok(v) => Some(v),
+        Err(p) => {
+            if p.is::<&str>() || p.is::<String>() {
+                clear_last_panic();
+                None
+            } else {
+                std::panic::resume_unwind(p)
+            }
+        }
+    }
+}
+
 pub fn install_quiet_panic_hook() {
     std::panic::set_hook(Box::new(|info| {
         let msg = if let Some(s) = info.payload().downcast_ref::<&str>() {
@@ -239,7 +256,8 @@ pub fn run_one<W: World>(ops: &[W::Op], obs: &mut Obs) -> Outcome {
             // … and a panic in crate code outside the files this property is anchored in belongs to
             // some other property (e.g. a container setter panicking while a bit-set history runs)
             let loc = msg.rsplit(" at ").next().unwrap_or("");
-            let foreign = !in_harness && loc.starts_with('/') && !W::anchored_files().is_empty() && !W::anchored_files().iter().any(|f| loc.contains(f)) && !loc.contains("/rustc/") && !loc.contains("/library/");
+            let in_anchor = W::anchored_files().iter().any(|f| loc.contains(f)) && !loc.contains("/.cargo/") && !loc.contains("/registry/");
+            let foreign = !in_harness && loc.starts_with('/') && !W::anchored_files().is_empty() && !in_anchor && !loc.contains("/rustc/") && !loc.contains("/library/");
             if foreign {
                 let mut d = fold(FNV_OFFSET, 0xF0E1);
                 d = fold(d, step as u64);
